@@ -58,6 +58,13 @@ SCENARIOS["union-fragment-spread-directly-and-inside-another-used-fragment"] = F
     'fragment Holder on User { id friends { ...PersonBits } }\n'
     'fragment Found on Query { search(text: "x") { ...ResultParts } }\n'
     'query Q { actor { ...ResultParts } ...Found me { ...Holder ...PersonBits } node(id: "1") { ...OnNode ... on User { ...Holder } } }')
+SCENARIOS["several-operations-not-in-alphabetical-order"] = FRAGS + (
+    'query Zeta { me { ...PersonBits } }\nquery Alpha($id: ID!) { node(id: $id) { ...OnNode } }\nquery Mid { actor { __typename ... on Bot { model } } }\n'
+    'mutation_placeholder').replace("mutation_placeholder", 'query Beta { search(text: "b") { __typename } }')
+# @mixin is documented for fields and fragment definitions; elsewhere it must be refused at load time or stripped - never sent
+SCENARIOS["mixin-on-inline-fragment-and-fragment-spread"] = FRAGS + (
+    'query M { me { ... on User @mixin(from: "pyvc_mixins", import: "OpFieldMixin") { id } ...PersonBits @mixin(from: "pyvc_mixins", import: "OpFieldMixin") } }')
+REFUSAL_OK = {"mixin-on-inline-fragment-and-fragment-spread"}
 SCENARIOS["mixin-on-fragment-definition"] = FRAGS + 'fragment WithMixin on User @mixin(from: "pyvc_mixins", import: "FragDefMixin") { id }\nquery M { me { ...WithMixin } }'
 
 
@@ -152,7 +159,10 @@ def check_scenario(name, plugins=()):
                 rep["outcome"][op.name.value] = problems
     except Exception as e:   # noqa
         rep["outcome"]["error"] = f"{type(e).__name__}: {str(e)[:300]}"
-        rep["failed"].append("generation")
+        if name in REFUSAL_OK and type(e).__name__ in ("InvalidOperationForSchema", "ParsingError"):
+            rep["outcome"]["refused"] = True      # refused at load time: nothing is sent
+        else:
+            rep["failed"].append("generation")
     finally:
         if g is not None:
             g.cleanup()
@@ -192,7 +202,9 @@ def check_method_templates():
 def bounded_documents(tier, seed):
     fails = []
     extract = "ariadne_codegen.contrib.extract_operations.ExtractOperationsPlugin"
-    runs = [(n, ()) for n in list(SCENARIOS) + list(KNOWN)] + [(n, (extract,)) for n in ("fragment-chain-depth-4", "string-literal-double-quote-escape", "aliases-arguments-directives-defaults")]
+    runs = [(n, ()) for n in list(SCENARIOS) + list(KNOWN)] + [(n, (extract,)) for n in ("fragment-chain-depth-4", "string-literal-double-quote-escape", "aliases-arguments-directives-defaults",
+                                                                                              "several-operations-not-in-alphabetical-order", "fragments-shared-by-two-operations",
+                                                                                              "mixin-on-inline-fragment-and-fragment-spread")]
     for n, plugins in runs:
         r = check_scenario(n, plugins)
         if r["failed"]:
